@@ -85,6 +85,29 @@ def run(ck):
         for opn, line, want_ in (("cid_sub_l", "psub 0 1 $0 $1", "negP"), ("cid_sub_r", "psub $0 $1 0 1", "P"), ("cid_add_l", "padd 0 1 $0 $1", "P"),
                                  ("cid_add_r", "padd $0 $1 0 1", "P"), ("cid_neg", "pneg 0 1", "id"), ("cid_sub_ii", "psub 0 1 0 1", "id")):
             add(f"al_{opn}{i}", base1 + [line, "snap"], ("alias", opn, P, want_))
+    # random sequences of point components on a shared pool of points (results fed back in) in one composer
+    for mi in range(4 if quick else 30):
+        pool = [J.random_subgroup_point(rng), rng.choice([J.ID, J.GEN, J.random_subgroup_point(rng)])]
+        body = [f"pt {e(pool[0])}", f"pt {e(pool[1])}"]; pos = [(0, 1), (2, 3)]; nres = 4; want_pts = []
+        for _k in range(rng.randrange(4, 8)):
+            op = rng.choice(["padd", "psub", "pneg", "pselid", "tors", "mulgen", "padd", "psub"])
+            i_, j_ = rng.randrange(len(pool)), rng.randrange(len(pool))
+            if op in ("padd", "psub"):
+                body.append(f"{op} ${pos[i_][0]} ${pos[i_][1]} ${pos[j_][0]} ${pos[j_][1]}")
+                v_ = J.add(pool[i_], pool[j_] if op == "padd" else J.neg(pool[j_]))
+            elif op == "pneg":
+                body.append(f"pneg ${pos[i_][0]} ${pos[i_][1]}"); v_ = J.neg(pool[i_])
+            elif op == "pselid":
+                b_ = rng.randrange(2); body += ["w " + hx(b_), f"pselid ${nres} ${pos[i_][0]} ${pos[i_][1]}"]; nres += 1
+                v_ = pool[i_] if b_ else J.ID
+            elif op == "tors":
+                body.append(f"tors ${pos[i_][0]} ${pos[i_][1]}"); continue
+            else:
+                s_ = rng.randrange(J.RJ); body += ["w " + hx(s_), f"mulgen ${nres} {e(J.GEN)}"]; nres += 1
+                v_ = J.mul(s_, J.GEN)
+            pool.append(v_); pos.append((nres, nres + 1)); want_pts.append(((nres, nres + 1), v_, op)); nres += 2
+        add(f"pmix{mi}", body + ["snap"], ("pmix", "sequence on shared points", want_pts))
+        ck.count(("pmix", mi), kind="mixed sequences of point components")
     mpts = [("random", J.random_subgroup_point(rng)), ("identity", J.ID), ("generator", J.GEN)]
     for j, k in enumerate(scalars(rng, quick)):
         for tag, P in (mpts if (not quick or j < 3) else mpts[:1]):
@@ -158,6 +181,14 @@ def run(ck):
                 # another curve point as the claimed sum
                 o = J.add(want, J.GEN); w2 = list(snap.wits); w2[n0 + 1], w2[n0 + 2] = o
                 job(f"{name}_other", snap, w2, False, "add: another curve point claimed as the sum", name)
+        elif kind == "pmix":
+            if any(l.startswith(("E ", "PANIC")) for l in impl[name]):
+                ck.violation(f"a point component failed inside a sequence on shared points: {[l for l in impl[name] if l.startswith(('E ', 'PANIC'))][0][:100]}", {"failing_input_found": True, "program": progs[name]}, key="pmix-error"); continue
+            for (px_, py_), v_, op_ in m[2]:
+                if py_ < len(res) and (val(res[px_]), val(res[py_])) != v_:
+                    ck.violation(f"in a sequence of point components on shared points, {op_} returned a point different from the group result", {"failing_input_found": True, "program": progs[name], "op": op_}, key=f"pmix-value:{op_}")
+                    break
+            job(name, snap, None, True, "honest sequence of point components", name)
         elif kind == "alias":
             op, P = m[1], m[2]
             got = (val(res[-2]), val(res[-1]))
